@@ -2,6 +2,7 @@ import Proofs.Sync
 import Proofs.Locks
 import Proofs.Term
 import Generated.Facts
+import Model.Signals
 /-! # C12 — Close and Disconnect end the client from any state, promptly and for good
 
 Model: `Model.Sync` — the two semaphores, the signals, one read routine and any
@@ -129,5 +130,39 @@ theorem C12_term_idempotent (s : S) (h1 : s.core.l1.seqClosed = true) (h2 : s.co
   simp only [S.termCallbacks, S.flushLevel, h1, h2, if_true]
   rw [breakAll_exch, releasePing_exch]
 
+
+end Model
+
+namespace Model
+
+/-- REGENERATED FACT. `Close` and `Disconnect` flip the signals in this order, as the extractor reads it off their deferred
+epilogues on every run: Online is blocked before Offline is released, both before the write semaphore is closed. From every
+state the two signals are therefore never both released on the way, and afterwards Offline is released and Online blocked. -/
+theorem C12_fact_closers_signals :
+    soundSignals Facts.syn_Close_signals false = true ∧ soundSignals Facts.syn_Disconnect_signals false = true := by decide
+
+/-- REGENERATED FACT. The read routine's own flips (`connect` on success, `toOffline`) happen before it hands the write semaphore
+back, never after: a `Close` or `Disconnect` that takes the write lock afterwards flips last, so that Online stays blocked and
+Offline released for good. -/
+theorem C12_fact_reader_signals_under_lock :
+    soundSignals Facts.syn_connect_signals true = true ∧ soundSignals Facts.syn_toOffline_signals false = true := by decide
+
+/-- whatever sequence passes `soundSignals` keeps "never both released" from every admissible state -/
+theorem C12_sound_signals_never_both (names : List String) (w : Bool) (es : List SigEv) (hp : names.mapM parseSigEv = some es)
+    (h : soundSignals names w = true) (s : Sig) (hs : s.ok = true) : neverBoth s es = true ∧ s.run es = ⟨w, !w⟩ := by
+  unfold soundSignals at h
+  rw [hp] at h
+  simp only [Bool.and_eq_true, List.all_eq_true] at h
+  have hmem : s ∈ sigStates := by
+    rcases s with ⟨o, f⟩
+    cases o <;> cases f <;> simp_all [sigStates, Sig.ok]
+  have := h.2 s hmem
+  simp only [Bool.and_eq_true, beq_iff_eq] at this
+  exact this
+
+/-- non-vacuity: releasing Offline before Online is blocked (both released for a moment) is rejected, and so is a flip after
+the write semaphore was handed back -/
+example : soundSignals ["clear:offlineSig", "block:onlineSig", "close:writeSem"] false = false := by decide
+example : soundSignals ["send:writeSem", "block:offlineSig", "clear:onlineSig"] true = false := by decide
 
 end Model
